@@ -90,7 +90,11 @@ public:
         T const err_all = result.error();
         T const rel_err_all = err_all / fabs(val_all);
 
-        bool const perform_more_iterations = rel_err_all > target_rel_err_;
+        // a target of zero means that no precision was requested: never stop early. Otherwise stop
+        // only if the target is reached; a relative error that is not a number (the estimate or a
+        // variance is zero) never reaches it
+        bool const perform_more_iterations = !(target_rel_err_ > T()) ||
+            !(rel_err_all <= target_rel_err_);
 
         if ((mode_ == callback_mode::verbose) || (mode_ == callback_mode::verbose_and_write_chkpt))
         {
